@@ -357,3 +357,76 @@ PROPS["C09"] = {
     "assumptions": _KS_ASSUME,
     "trusted_base": _KS_TRUSTED,
 }
+
+# ---------------------------------------------------------------------------------------------------------------
+# properties judged on whole runs of the real Applier / Destroyer (domain sys-Cxx) plus component domains
+_SYS_RULE = ("sys: histories of 1-3 apply/destroy runs of the REAL Applier/Destroyer (assembled through the exported builder) over a stateful "
+             "fake API server, with a scripted status watcher that imposes a deterministic schedule: 5 hand-written histories + 500 (quick) / "
+             "8000 (thorough) generated ones over a catalogue of 12 manifests (namespaces, ConfigMaps, Secrets, a ClusterRole with ':' in its name; "
+             "explicit depends-on chains, apply-time mutation, both deletion-prevention annotations), pre-existing un-owned / foreign-owned objects, "
+             "all three inventory policies, prune on/off, client/server dry-run, client/server-side apply, exit-early / skip-invalid with 9 families of "
+             "invalid objects, rejected mutating request k, failed inventory LIST n, failing GET of an object, controllers that never reconcile / "
+             "report stale generations / fail / fail-then-recover / replace the object, finalizers, cancellation before sync / in a wait phase / while "
+             "request k is in flight, watcher failure, deletions by another actor, repeated identical applies. Every history is non-trivial "
+             "(>= 1 run); distinct = distinct canonical input JSON. Compared with the Lean run model: events, every mutating request with the "
+             "full store snapshot after it, final store.")
+_SYS_TRUSTED = ["model: lean/CliUtils/Model/Sys.lean (hand-written from applier.go, destroyer.go, solver.go, runner.go, the task files, prune.go, "
+                "the filters, inventory-client.go, policy.go) on top of Model/{Wait,Graph,DepEdges,Manager,IdSet,IdStr}.lean",
+                "environment modelled, not verified: harness/internal/fakecluster (in-memory API server: uid counter, generation bump on content "
+                "change, delete with UID precondition, finalizers as deletionTimestamp, merge-patch semantics), kubectl's ApplyOptions.Run as "
+                "GET + (POST | PATCH-if-changed) or one server-side-apply PATCH, the scripted status feed of harness/cmd/corr/sys_run.go",
+                "property predicates: lean/CliUtils/Spec/SysSpec.lean (evaluated on the implementation's observed behaviour)"]
+_SYS_ASSUME = ["a failed request has no effect on the store (atomic requests); no garbage collector / namespace cascade in the environment",
+               "status events are delivered only inside wait phases (rendezvous with the runner's select loop makes the schedule deterministic)"]
+
+def _sys(pid, extra_domains, level_text, explanation, extra_assume=()):
+    return {
+        "domains": extra_domains + ["sys-" + pid],
+        "timeout_quick": 600, "timeout_thorough": 3000,
+        "level_text": level_text,
+        "level_note": ("Trusted: Lean kernel (+propext, Quot.sound, Classical.choice); the hand-written run model, tied to the code by replaying "
+                       "every generated history on the real Applier/Destroyer and comparing complete traces; the fake API server and kubectl's "
+                       "request pattern are modelled, not verified; Go scheduling inside a task is irrelevant (one goroutine per task), the "
+                       "runner's select loop is driven by rendezvous."),
+        "technique": "Lean 4 theorems over the run model (case analysis, induction over task lists) + trace correspondence with the real Applier/Destroyer",
+        "rule": _SYS_RULE,
+        "explanation": explanation,
+        "assumptions": _SYS_ASSUME + list(extra_assume),
+        "trusted_base": _SYS_TRUSTED,
+    }
+
+PROPS["C02"] = _sys("C02", ["policy"],
+    "Theorems: the CanApply/CanPrune matrix (all owners, all policies); a delete request is sent by the prune step only if every guard of the "
+    "filter chain holds (UID present, no deletion-prevention annotation, policy accepts the owner, namespace not in use, every dependent deleted "
+    "and reconciled, not the UID of an object just applied, not dry-run) and then names the object with the planning-time UID as precondition and "
+    "the configured propagation policy; the only other request is the annotation removal for a prevention-annotated object; such an object is "
+    "abandoned and loses the annotation, any other spared object is recorded as skipped (hence retained, C03); an existing object is handed to "
+    "kubectl only if the policy accepts its owner. Tie: exhaustive grid through the real policy functions and stateless filters (domain policy), "
+    "whole runs with a recording API server that sees Delete options (domain sys-C02).",
+    "Spec predicates on the implementation: every observed DELETE is authorised (in previous inventory, not in apply set, policy, annotations, "
+    "namespace, UID precondition = planning-time UID, propagation), every apply over an existing object satisfies CanApply, spared objects are "
+    "abandoned / retained as stated.")
+PROPS["C04"] = _sys("C04", ["depfilter"],
+    "Theorems: the dependency gate passes exactly when EVERY dependency is valid, registered with the same strategy, actuated successfully and "
+    "(outside dry-run) recorded as reconciled (iff, for all tables and dependency lists); an object is handed to kubectl only if the gate passed "
+    "for all edges of the run's graph; if any dependency blocks (failed/skipped/pending actuation, failed/timed-out/skipped/pending reconcile, "
+    "invalid, unregistered, scheduled for deletion) no request is sent, the store is unchanged and exactly one Skipped/Failed event is emitted. "
+    "Reconciled means, by C06, last observed Current at a generation >= the applied one. Tie: exhaustive cells through the real DependencyFilter "
+    "(domain depfilter: 2 strategies x 3 dry-run modes x 82 relation states, singles and pairs), whole runs (sys-C04).",
+    "Spec predicate: for every observed apply request, each dependency (explicit, mutation source, namespace) has an earlier Successful apply event "
+    "and, outside dry-run, its last wait event before the request is Successful.")
+PROPS["C05"] = _sys("C05", ["depfilter"],
+    "Theorems: a delete request is sent only if every dependent (all incoming edges of the run's graph: apply set and stored inventory) has been "
+    "deleted successfully and (outside dry-run) recorded as reconciled; a dependent that is still applied, whose delete failed/was skipped/did not "
+    "complete, or that is invalid blocks the delete (no request); the reversed layering puts a dependency in a strictly later delete layer than its "
+    "dependents (from C14). Blocked dependencies are recorded as skipped/failed deletes and therefore stay in the inventory (C03 formula). "
+    "Tie: domain depfilter (strategy delete), whole runs (sys-C05).",
+    "Spec predicate: for every observed DELETE, each existing dependent has an earlier Successful delete event and, outside dry-run, its last wait "
+    "event before the request is Successful; no delete while a dependent is in the apply set.")
+PROPS["C10"] = _sys("C10", [],
+    "Theorem run_dry_changes_nothing: for EVERY cluster state and EVERY run configuration with client or server dry-run (any apply set, options, "
+    "injected failures, cancellation point), the store after the run equals the store before it and every mutating request of the run is a "
+    "server-side-apply patch carrying the dry-run directive (none under client dry-run) — proved by a per-step 'Harmless' lemma for kubectl apply, "
+    "the prune step, inventory merge/replace/delete, lifted by induction over object lists and task lists; the plan of a dry-run has no wait task. "
+    "Tie: whole runs in both dry-run modes x client/server-side apply on states produced by earlier real runs (sys-C10).",
+    "Spec predicate: no executed mutation in the request log (client: none at all; server: only dry-run patches, no delete), store snapshot before = after.")
